@@ -10,14 +10,18 @@ EXTENDS Lifecycle, Json, IOUtils
 
 CONSTANT EmitAll
 VARIABLE hist
-gvars == <<slot, heap, model, nblk, err, stream, ops, hist>>
+gvars == <<slot, heap, model, nblk, err, stream, ops, view, hist>>
 View == vars
 
 SlotSnap(s) == [st |-> slot[s].st, ty |-> slot[s].ty, ext |-> slot[s].ext, size |-> slot[s].size,
                 vals |-> IF slot[s].st = "live"
                          THEN LET b == SetToSeq(Box(slot[s].ext)) IN [k \in 1..Len(b) |-> [c |-> b[k], v |-> model[s][b[k]]]]
                          ELSE <<>>]
-Snapshot == [slots |-> [s \in Slots |-> SlotSnap(s)], blocks |-> OwnedBlocks]
+ViewSnap(v) == [st |-> view[v].st, ty |-> view[v].ty, ext |-> view[v].ext,
+                vals |-> IF view[v].st = "valid"
+                         THEN LET b == SetToSeq(Box(view[v].ext)) IN [k \in 1..Len(b) |-> [c |-> b[k], v |-> ViewCells(v)[b[k]]]]
+                         ELSE <<>>]
+Snapshot == [slots |-> [s \in Slots |-> SlotSnap(s)], blocks |-> OwnedBlocks, views |-> [v \in ViewIds |-> ViewSnap(v)]]
 Rec(op, args) == hist' = Append(hist, [op |-> op, args |-> args, after |-> Snapshot'])
 
 GInit == Init /\ hist = <<>>
@@ -39,6 +43,10 @@ GNext ==
   \/ (On("ConvertMove") /\ \E d \in Slots, s \in Slots, ty \in Types : ConvertMove(d, s, ty) /\ Rec("ConvertMove", [d |-> d, s |-> s, ty |-> ty]))
   \/ (On("DefaultConstruct") /\ \E s \in ConstructSlots, ty \in Types : \E e \in ExtChoices :
         DefaultConstruct(s, ty, Len(e)) /\ Rec("DefaultConstruct", [s |-> s, ty |-> ty, n |-> Len(e)]))
+  \/ (\E v \in ViewIds, s \in Slots : MakeView(v, s) /\ Rec("MakeView", [view |-> v, s |-> s]))
+  \/ (\E v \in ViewIds : DropView(v) /\ Rec("DropView", [view |-> v]))
+  \/ (\E v \in ViewIds : view[v].st = "valid" /\ \E c \in Box(view[v].ext), val \in Vals \ {0} :
+        WriteView(v, c, val) /\ Rec("WriteView", [view |-> v, c |-> c, val |-> val]))
 GSpec == GInit /\ [][GNext]_gvars
 
 EmitHist == (EmitAll \/ ops' = MaxOps) =>
